@@ -114,7 +114,8 @@ var Frags = map[string][]string{
 	"xml": {"<a", "<b:c", ">", "/>", "?>", "</a>", "</a", "</", " x='1'", " y=\"2\"", " z", "=", "'", "\"", "<!--", "-->", "--", "<![CDATA[", "]]>", "]]", "<?xml", "<?pi", "<?", "<!DOCTYPE", "<!DOCTYPE a [", "[", "]", "]>", "<!ENTITY", "<!", "text", " ", "\n", "\t", "\r", "\x00", "é", "\xc3", "<", "&amp;", "/", "?",
 		"<?p x='", "<?p >", "<?p a/>", "<!DOCTYPE a [<?p", "<?p don't?>", " x=\"?>", "]]]>", "<!DOCTYPE a [<!--"},
 	"json": {"{", "}", "[", "]", ",", ":", `"a"`, `"`, `\`, `\"`, `"\\"`, `"\u00`, "1", "-", "0", "1.5", "1e5", "1e", ".", "true", "false", "null", "nul", "t", " ", "\n", "\r", "\t", "\x00", "é", "\xc3", `"k":`, `{"a":`, "[1,", "]]", "}}", "tru", "-0", "01", "//", "/*"},
-	"js": {"total", "counter", " value", "result", "total=", "counter*", "(value)", "{result}", "index", // names of several bytes that recur from one input to the next
+	"js": {"가", "π", "変数", "ǅ", "x가", // identifier characters outside Latin-1
+		"total", "counter", " value", "result", "total=", "counter*", "(value)", "{result}", "index", // names of several bytes that recur from one input to the next
 		"a", "b", "$", "_", "in", "of", "let", "var", "function", "class", "async", "await", "yield", "return", "if", "else", "for", "while", "new", "this", "super", "import", "export", "from", "static", "get", "=>", "...", "..", ".", "?.", "?.5", "??", "??=", ">>>=", ">>>", "**", "**=", "&&=", "||", "!==", "===", "<<=", "++", "--", "-->", "<!--", "~", "~=", "?=", "?", ":", "#", "#a", "#!", "@", "=", "+", "-", "*", "/", "/=", "%", "<", ">", "!", "&", "|", "^", ",", ";",
 		"(", ")", "[", "]", "{", "}", "${", "`", "`a${", "}`", "'", "\"", "'a'", "\"b\"", "'\\", "\\", "\\u0061", "\\u{61}", "\\u{", "\\u00", "1", "1.", ".5", "1e", "1e5", "0x", "0xg", "0x1F", "1n", "1a", "0b2", "00", "08", "1_", "1__0", "1_000", "/*", "*/", "//", "/re/g", "/[/]/", "\n", "\r\n", " ", "\t", "é", "中", "\x00", "\x01", "§", "\xc3", "\xe2\x80", "\xf0\x9f\x98", "\xef\xbb\xbf", "\xe2\x80\xa8", "\xe2\x80\xa9", "\xc2\xa0", "\xe2\x80\x8c",
 		// characters that may continue an identifier but not start one (combining marks, non-ASCII digits), alone and inside names
